@@ -47,6 +47,9 @@ def run_r16a(ctx, P, r, only_fn=None):
                        loc=at.loc, msg=f'the object allocated at line {site.line} ({site.callee}) {what} (reached at line {at.line})')
     return n
 
+SWAPP = {'slt': 'sgt', 'sgt': 'slt', 'sle': 'sge', 'sge': 'sle', 'ult': 'ugt', 'ugt': 'ult', 'ule': 'uge', 'uge': 'ule'}
+NEGP = {'slt': 'sge', 'sge': 'slt', 'sgt': 'sle', 'sle': 'sgt', 'ult': 'uge', 'uge': 'ult', 'ugt': 'ule', 'ule': 'ugt'}
+
 def shift_amount_of(fn, C, v):
     """value v = (... | (1 << X)) or (... & (1 << X)): canonical X"""
     st = [v]
@@ -271,11 +274,39 @@ def run(ctx):
             # range: index 0 .. bound-1, one entry per iteration
             wantb = K if role == 'data' else M
             rng = None
-            if ab is not None and ab[0].is_zero() and ab[1] == Poly.const(1):
+            if ab is not None and ab[1] == Poly.const(1):
                 for gd in LL.guards():
                     tr = LL.trip(gd)
-                    if gd.block is LL.header and tr is not None and normp(tr) == wantb:
-                        rng = gd
+                    if gd.block is not LL.header or tr is None:
+                        continue
+                    # iterations that reach this free: t in [lo, hi) - the loop's own range, narrowed by the tests on the loop
+                    # counter that dominate the free (`i < k` / `i >= k` in a loop over all k+m slots); the freed indexes a + t
+                    # must be exactly 0 .. bound-1
+                    los, his = [Poly()], [normp(tr)]
+                    rec = LL.ivs().get(gd.iv)
+                    init0 = rec[0] if rec is not None and rec[0] is not None else None
+                    if init0 is not None and rec[1] == Poly.const(1):
+                        for raw, truth in F.raw:
+                            if raw.op != 'icmp' or raw.bb not in LL.body:
+                                continue
+                            for x_, y_, pr_ in ((raw.ops[0], raw.ops[1], raw.pred), (raw.ops[1], raw.ops[0], SWAPP.get(raw.pred))):
+                                if pr_ is None or strip_int_casts(g, x_) != gd.iv:
+                                    continue
+                                pr2 = pr_ if truth else NEGP.get(pr_)
+                                bound_ = normp(pc.val(y_)) - normp(init0)        # in iteration numbers
+                                if pr2 in ('slt', 'ult'):
+                                    his.append(bound_)
+                                elif pr2 in ('sge', 'uge'):
+                                    los.append(bound_)
+                    # several bounds may dominate (the loop's own and a narrower test): the narrowest is not decidable symbolically,
+                    # so a dominating pair is accepted when it makes the freed range exactly 0 .. bound-1 and every other bound is visibly no tighter
+                    def nonneg(p_):
+                        return all(v_ >= 0 for v_ in p_.values())        # k, m and counts are non-negative quantities
+                    for lo in los:
+                        for hi in his:
+                            if (normp(ab[0]) + lo).is_zero() and (normp(ab[0]) + hi) == wantb and \
+                               all(nonneg(lo - l2) for l2 in los) and all(nonneg(h2 - hi) for h2 in his):
+                                rng = gd
             if ok and rng is not None:
                 # every exit after prepare passes the loop header, or the edge on which realloc_bm == 0 (nothing flagged)
                 zero_edges = set()
